@@ -288,6 +288,33 @@ def sim_flow(ctx: Ctx):
                "the computed targets are renamed or transformed before they are merged into the panel: a target can overwrite "
                "another column" if verdict is False else "merging of the computed targets into the panel not recognised",
                lhs=show(panel)[:200] if panel is not None else "missing")
+        # inside _compute_targets: values that come back as a sequence are labelled with the targets in the order requested
+        cq = "lcm.simulate._compute_targets"
+        cfr = prog.frame(cq) if cq in prog.funcs else None
+        if cfr is not None and cfr.ret is not None:
+            cf_calls = [x for x in walk(cfr.ret) if callee_name(x) == "dags.concatenate_functions"]
+            rt = kw(cf_calls[0], "return_type") if cf_calls else None
+            req = kw(cf_calls[0], "targets") if cf_calls else None
+            ret = cfr.ret
+            if cf_calls and rt is not None and rt[0] == "const" and rt[1] in ("tuple", "list") and req is not None:
+                labels = None
+                if callee_name(ret) == "builtins.dict" and ret[2] and callee_name(ret[2][0]) == "builtins.zip" and len(ret[2][0][2]) == 2:
+                    labels, vals = ret[2][0][2]
+                    if not any(x == cf_calls[0] for x in walk(vals)):
+                        labels = None
+                def strip(t):
+                    while callee_name(t) in ("builtins.list", "builtins.tuple") and len(t[2]) == 1:
+                        t = t[2][0]
+                    return t
+                if labels is not None:
+                    same = strip(labels) == strip(req)
+                    reordered = callee_name(strip(labels)) in ("builtins.sorted", "builtins.reversed", "builtins.set") or (
+                        strip(labels)[0] == "sub" and strip(labels)[2][0] == "slice")
+                    ctx.ob("FLOW:targets-labelled-in-request-order", True if same else False if reordered else None, prog.where(ret),
+                           "the values returned as a sequence are labelled with the targets in the order in which they were requested"
+                           if same else "the values come back in the order of targets=, but are labelled with a differently ordered "
+                           "sequence of names: columns are permuted" if reordered else "labelling of the target values not recognised",
+                           lhs=show(labels)[:120], rhs=show(req)[:120])
     else:
         ctx.undecided("FLOW:targets-arguments", "_compute_targets call not found")
     r = fr.ret
@@ -790,8 +817,13 @@ def row_domains(ctx: Ctx):
            lhs=show(misuse[0])[:200] if misuse else "")
     # segment ids passed to the discrete policy are the ones of this data space
     part = dpc[1]
-    seg_ok = callee_name(part) == "functools.partial" and ds and kw(part, "choice_segments") == ("sub", ds[0], ("const", 1))
-    ctx.ob("AX5:segments-of-this-data-space", bool(seg_ok), prog.where(dpc),
+    want_seg = ("sub", ds[0], ("const", 1)) if ds else None
+    seg = kw(part, "choice_segments") if callee_name(part) == "functools.partial" else None
+    seg = kw(dpc, "choice_segments") if kw(dpc, "choice_segments") is not None else seg  # bound at the call wins
+    seg_ok = bool(ds) and seg == want_seg
+    if seg is None and bool(ds):
+        seg_ok = None  # not bound by partial(...) nor at the call: bound somewhere this rule does not look
+    ctx.ob("AX5:segments-of-this-data-space", seg_ok if seg_ok is None else bool(seg_ok), prog.where(dpc),
            "the segment arg-max uses the choice segments created together with this period's data space" if seg_ok
            else "the discrete policy calculator does not receive this data space's choice segments", lhs=show(part)[:200])
     ctx.count("configs", 1)
